@@ -12,9 +12,29 @@ use crate::rng;
 
 #[derive(Clone, Debug, PartialEq, Eq, Serialize, Deserialize)]
 pub enum NodeKind {
-    File { size: usize, cseed: u64 },
+    /// `period` > 0: the content repeats every `period` bytes (so that blocks repeat inside
+    /// one file and the tail of one file can equal the whole of another).
+    File {
+        size: usize,
+        cseed: u64,
+        #[serde(default, skip_serializing_if = "is_zero")]
+        period: usize,
+    },
     Dir,
     Symlink { target: String },
+}
+
+fn is_zero(n: &usize) -> bool {
+    *n == 0
+}
+
+/// The bytes of a generated file.
+pub fn file_bytes(cseed: u64, size: usize, period: usize) -> Vec<u8> {
+    if period == 0 || size <= period {
+        return rng::content(cseed, size);
+    }
+    let unit = rng::content(cseed, period);
+    unit.iter().copied().cycle().take(size).collect()
 }
 
 #[derive(Clone, Copy, Debug, PartialEq, Eq, Serialize, Deserialize)]
@@ -50,6 +70,10 @@ pub enum EditOp {
     /// `count` empty files `<dir>/<prefix>NNNNN` with the same metadata (for indexes with
     /// more hunks than fit in one index subdirectory).
     BulkEmptyFiles { dir: String, prefix: String, count: u32, meta: Meta },
+    /// Directory entries whose names are NOT valid UTF-8 (raw bytes). Conserve skips such
+    /// names (it logs them), so they are not part of the model; `kind` is 0 for dangling
+    /// symlinks, 1 for empty files, 2 for empty directories.
+    RawNames { dir: String, names: Vec<Vec<u8>>, kind: u8 },
 }
 
 impl EditOp {
@@ -59,6 +83,7 @@ impl EditOp {
                 path
             }
             EditOp::BulkEmptyFiles { dir, .. } => dir,
+            EditOp::RawNames { dir, .. } => dir,
             EditOp::Rename { from, .. } => from,
         }
     }
@@ -169,6 +194,9 @@ impl TreeModel {
                 }
                 true
             }
+            EditOp::RawNames { dir, names, .. } => {
+                self.is_dir(dir) && names.iter().all(|n| std::str::from_utf8(n).is_err() && !n.contains(&b'/') && !n.contains(&0))
+            }
             EditOp::BulkEmptyFiles { dir, prefix, count, meta } => {
                 if !self.is_dir(dir) {
                     return false;
@@ -178,7 +206,7 @@ impl TreeModel {
                     if self.nodes.contains_key(&p) {
                         continue;
                     }
-                    self.nodes.insert(p, TNode { kind: NodeKind::File { size: 0, cseed: 0 }, meta: *meta });
+                    self.nodes.insert(p, TNode { kind: NodeKind::File { size: 0, cseed: 0, period: 0 }, meta: *meta });
                 }
                 true
             }
@@ -272,7 +300,10 @@ pub fn walk(root: &Path) -> std::io::Result<Snap> {
         if is_dir {
             let mut names: Vec<String> = Vec::new();
             for e in std::fs::read_dir(&p)? {
-                names.push(e?.file_name().to_string_lossy().to_string());
+                // names that are not UTF-8 are outside the model (see EditOp::RawNames)
+                if let Some(n) = e?.file_name().to_str() {
+                    names.push(n.to_string());
+                }
             }
             names.sort();
             for name in names {
@@ -337,9 +368,9 @@ pub fn apply_edit(model: &mut TreeModel, root: &Path, e: &EditOp) -> std::io::Re
                         std::fs::create_dir(&p)?;
                     }
                 }
-                NodeKind::File { size, cseed } => {
+                NodeKind::File { size, cseed, period } => {
                     remove_any(&p)?;
-                    std::fs::write(&p, rng::content(*cseed, *size))?;
+                    std::fs::write(&p, file_bytes(*cseed, *size, *period))?;
                 }
                 NodeKind::Symlink { target } => {
                     remove_any(&p)?;
@@ -356,8 +387,22 @@ pub fn apply_edit(model: &mut TreeModel, root: &Path, e: &EditOp) -> std::io::Re
             let n = model.nodes.get(path).unwrap().clone();
             set_meta_on_disk(&disk_path(root, path), &n)?;
         }
+        EditOp::RawNames { dir, names, kind } => {
+            use std::os::unix::ffi::OsStrExt;
+            for n in names {
+                let p = disk_path(root, dir).join(std::ffi::OsStr::from_bytes(n));
+                if p.symlink_metadata().is_ok() {
+                    continue;
+                }
+                match kind {
+                    0 => std::os::unix::fs::symlink("raw-name-target", &p)?,
+                    1 => std::fs::write(&p, b"")?,
+                    _ => std::fs::create_dir(&p)?,
+                }
+            }
+        }
         EditOp::BulkEmptyFiles { dir, prefix, count, meta } => {
-            let node = TNode { kind: NodeKind::File { size: 0, cseed: 0 }, meta: *meta };
+            let node = TNode { kind: NodeKind::File { size: 0, cseed: 0, period: 0 }, meta: *meta };
             for i in 0..*count {
                 let p = disk_path(root, &join_apath(dir, &format!("{prefix}{i:05}")));
                 if !p.exists() {
@@ -393,8 +438,8 @@ pub fn model_snap(model: &TreeModel) -> Snap {
         .iter()
         .map(|(k, n)| {
             let (kind, data, target, mode) = match &n.kind {
-                NodeKind::File { size, cseed } => {
-                    ('f', rng::content(*cseed, *size), String::new(), n.meta.mode)
+                NodeKind::File { size, cseed, period } => {
+                    ('f', file_bytes(*cseed, *size, *period), String::new(), n.meta.mode)
                 }
                 NodeKind::Dir => ('d', Vec::new(), String::new(), n.meta.mode),
                 NodeKind::Symlink { target } => ('l', Vec::new(), target.clone(), 0o777),
